@@ -857,6 +857,13 @@ func (ex *Exec) loopHead(li *loopInfo, phiIn map[*ssa.Phi]Term) {
 		c.assume(ex.typeFacts(x, phi.Type()))
 		ex.vals[phi] = Val{T: x, Ty: phi.Type()}
 	}
+	// the hidden index of a range-over-slice loop starts at -1 and is only ever incremented by the loop header:
+	// -1 <= index is an invariant of the lowering itself (not of the program) and is supplied automatically
+	if a := rangeIndexAlloc(li); a != nil && ex.cells[a] {
+		if t, ok := st.cells[a]; ok && c.Mode == ArithInt {
+			c.assume(Implies(ex.rch, T(SBool, "(<= (- 1) %s)", t.S)))
+		}
+	}
 	// 3. assume invariant
 	for _, clz := range invs {
 		env := ex.contractEnv(st, ex.entry)
